@@ -16,6 +16,12 @@ across several brokers sharing etcd, snapshot watch refreshes, and operator publ
                        that topic ⇒ covered in every later state.
 * `refreshed_view`     after a watch refresh an idle broker's `Metadata()` equals the etcd snapshot.
 * `lost_update_old`, `watch_race_old`, `operator_shrinks_old`   witnesses on the pre-fix model.
+* `dirty_copy_discarded`  whatever a failed call left in a broker's local copy, its next update attempt
+                       computes what it would compute from a fresh read (once the key exists).
+* `failed_step_no_ack`  steps standing for transient etcd errors (`getFail`, `beginFail`, `commitFail`)
+                       acknowledge nothing; `acked_persist` / `ack_survives` quantify over them too.
+* `fastpath_refresh_seeded`  witness: a refresh that skips the reload when the revision is unchanged
+                       writes a failed call's dirty copy back (acknowledged topic lost; phantom "exists").
 * `late_notification_seeded`  witness: a watcher that applies the (possibly outdated) payload of a
                        notification without `persistMu` loses an acknowledged topic; `acked_persist`
                        covers the code's watcher for deliveries of ANY past notification at ANY point.
@@ -279,6 +285,60 @@ theorem good_commitB {s : State} (hg : Good s) (b : Nat) : Good (commitB s b).1 
         · simp only [upd_other _ _ hc] at hp' ⊢
           exact hb c r' o a hp'
 
+/-- dropping a broker's pending update (its call returned an error) and leaving ANY local copy
+behind keeps the invariant: the next update re-reads the key -/
+theorem good_drop {s : State} (hg : Good s) (b : Nat) (l : Snap) :
+    Good { s with brokers := upd s.brokers b { loc := l, pend := none } } := by
+  obtain ⟨hinv, hb, ho⟩ := hg
+  refine ⟨hinv, ?_, ho⟩
+  intro c r o a hp
+  by_cases hc : c = b
+  · subst hc; simp [upd_same] at hp
+  · simp only [upd_other _ _ hc] at hp ⊢
+    exact hb c r o a hp
+
+theorem good_beginFailB {s : State} (hg : Good s) (b : Nat) (op : TOp) : Good (beginFailB s b op).1 := by
+  simp only [beginFailB]
+  split <;> exact good_drop hg b _
+
+theorem ackLost_mem {acked : List (Nat × Nat)} {op : TOp} {e : Nat × Nat} (h : e ∈ ackLost acked op) :
+    e ∈ acked ∧ deletes op e.1 = false := by
+  cases op with
+  | create t n => exact ⟨h, rfl⟩
+  | grow t n => exact ⟨h, rfl⟩
+  | delete t =>
+    simp only [ackLost, List.mem_filter, bne_iff_ne, ne_eq] at h
+    refine ⟨h.1, ?_⟩
+    simp only [deletes, beq_eq_false_iff_ne, ne_eq]
+    exact fun e' => h.2 e'.symm
+
+theorem good_commitFailB {s : State} (hg : Good s) (b : Nat) (applied : Bool) :
+    Good (commitFailB s b applied).1 := by
+  unfold commitFailB
+  split
+  · exact hg
+  · rename_i r op att hp
+    split
+    · rename_i hr
+      obtain ⟨hinv, hb, ho⟩ := hg
+      obtain ⟨_, hpost, hcov⟩ := hb b r op att hp
+      refine ⟨?_, ?_, ?_⟩
+      · intro e he
+        obtain ⟨hm, hd⟩ := ackLost_mem he
+        exact ⟨(s.brokers b).loc, rfl, hcov hr.2 e hm hd⟩
+      · intro c r' o a hp'
+        by_cases hc : c = b
+        · subst hc; simp [upd_same] at hp'
+        · simp only [upd_other _ _ hc] at hp' ⊢
+          obtain ⟨hle, hpo, _⟩ := hb c r' o a hp'
+          refine ⟨by show r' ≤ s.rev + 1; omega, hpo, ?_⟩
+          intro heq; have heq' : r' = s.rev + 1 := heq; omega
+      · intro r' p a hp'
+        obtain ⟨hle, _⟩ := ho r' p a hp'
+        refine ⟨by show r' ≤ s.rev + 1; omega, ?_⟩
+        intro heq; have heq' : r' = s.rev + 1 := heq; omega
+    · exact good_drop hg b _
+
 theorem good_step {s : State} (hg : Good s) (st : Step) : Good (step merge s st).1 := by
   cases st with
   | «begin» b op =>
@@ -349,6 +409,15 @@ theorem good_step {s : State} (hg : Good s) (st : Step) : Good (step merge s st)
           exact mergeOpt_covers hs hcov'
         · refine ⟨hinv, hb, ?_⟩
           intro r' p a hp'; simp at hp'
+  | getFail b =>
+    simp only [step]
+    split <;> exact hg
+  | beginFail b op =>
+    simp only [step]
+    split
+    · exact hg
+    · exact good_beginFailB hg b op
+  | commitFail b applied => exact good_commitFailB hg b applied
 
 theorem good_run {s : State} (hg : Good s) (steps : List Step) : Good (run merge s steps) := by
   induction steps generalizing s with
@@ -366,6 +435,7 @@ theorem _root_.KafVerif.C21.acked_persist (locals : Nat → Snap) (steps : List 
 /-- A step that completes an explicit deletion of topic `t`. -/
 def deletesTopic (s : State) (t : Nat) : Step → Prop
   | .commit b => ∃ r att, (s.brokers b).pend = some (r, .delete t, att)
+  | .commitFail b true => ∃ r att, (s.brokers b).pend = some (r, .delete t, att)
   | _ => False
 
 theorem acked_step_mono {s : State} {st : Step} {e : Nat × Nat} (he : e ∈ s.acked)
@@ -402,6 +472,29 @@ theorem acked_step_mono {s : State} {st : Step} {e : Nat × Nat} (he : e ∈ s.a
     · split
       · exact he
       · split <;> exact he
+  | getFail b => simp only [step]; split <;> exact he
+  | beginFail b op =>
+    simp only [step]; split
+    · exact he
+    · simp only [beginFailB]; split <;> exact he
+  | commitFail b applied =>
+    simp only [step, commitFailB]
+    split
+    · exact he
+    · rename_i r op att hp
+      split
+      · rename_i hr
+        cases op with
+        | create t n => exact he
+        | grow t n => exact he
+        | delete t =>
+          simp only [ackLost, List.mem_filter, bne_iff_ne, ne_eq]
+          refine ⟨he, ?_⟩
+          intro heq
+          have ha : applied = true := hr.1
+          subst ha
+          exact hnd ⟨r, att, by rw [hp, heq]⟩
+      · exact he
 
 /-- **C21 (trace form).** If `(t, n)` is acknowledged in a reachable state `s` and none of the
 following steps completes an explicit deletion of `t`, then after those steps the etcd snapshot
@@ -499,6 +592,79 @@ statement is `acked_persist`). -/
 example : invB (run merge (init loc0) [.begin 0 (.create 1 1), .commit 0, .begin 1 (.create 2 1), .commit 1]) = true ∧
     invB (run merge (init loc0) [.begin 0 (.create 1 1), .commit 0, .begin 0 (.grow 1 3), .watch 0, .commit 0]) = true ∧
     invB (run merge (init loc0) [.begin 0 (.create 1 1), .commit 0, .begin 0 (.grow 1 3), .commit 0, .opGet [(1, 1)], .opTxn]) = true := by
+  decide
+
+/-! ### transient etcd errors (fault injection) -/
+
+/-- **A dirty local copy is discarded before the next write.**  Whatever a failed call left in broker
+`b`'s local copy (`dirty`), its next `updateSnapshot` attempt — once the snapshot key exists —
+computes exactly what it would compute from a copy equal to a fresh read: same answer, same local
+copy, same pending write. -/
+theorem _root_.KafVerif.C21.dirty_copy_discarded (s : State) (b : Nat) (dirty e : Snap) (op : TOp) (att : Nat)
+    (he : s.etcd = some e) :
+    (beginB { s with brokers := upd s.brokers b { loc := dirty, pend := none } } b op att).2 =
+      (beginB { s with brokers := upd s.brokers b { loc := e, pend := none } } b op att).2 ∧
+    (beginB { s with brokers := upd s.brokers b { loc := dirty, pend := none } } b op att).1.brokers b =
+      (beginB { s with brokers := upd s.brokers b { loc := e, pend := none } } b op att).1.brokers b := by
+  simp only [beginB, he, Option.getD_some]
+  split <;> simp [upd_same]
+
+/-- **Failed calls acknowledge nothing.**  A step that stands for a transient etcd error never adds
+to the acknowledged set (and `acked_persist` holds across such steps, wherever they occur). -/
+theorem _root_.KafVerif.C21.failed_step_no_ack (s : State) (b : Nat) (op : TOp) (applied : Bool) (e : Nat × Nat) :
+    (e ∈ (step merge s (.getFail b)).1.acked → e ∈ s.acked) ∧
+    (e ∈ (step merge s (.beginFail b op)).1.acked → e ∈ s.acked) ∧
+    (e ∈ (step merge s (.commitFail b applied)).1.acked → e ∈ s.acked) := by
+  refine ⟨?_, ?_, ?_⟩
+  · simp only [step]; split <;> exact id
+  · simp only [step]; split
+    · exact id
+    · simp only [beginFailB]; split <;> exact id
+  · simp only [step, commitFailB]
+    split
+    · exact id
+    · split
+      · intro h; exact (ackLost_mem h).1
+      · exact id
+
+/-- Non-vacuity: the demo schedule of the seeded fast path on the CODE's model — broker 1 creates topic 1,
+broker 0 creates topic 2, broker 0's `DeleteTopic 1` fails in its offset cleanup (local copy: topic 1
+gone), broker 0 creates topic 3: the refresh discards the dirty copy, topic 1 survives. -/
+example : (run merge (init loc0)
+      [.begin 1 (.create 1 1), .commit 1, .begin 0 (.create 2 1), .commit 0,
+       .beginFail 0 (.delete 1), .begin 0 (.create 3 1), .commit 0]).etcd = some [(1, 1), (2, 1), (3, 1)] ∧
+    ((run merge (init loc0)
+      [.begin 1 (.create 1 1), .commit 1, .begin 0 (.create 2 1), .commit 0,
+       .beginFail 0 (.delete 1)]).brokers 0).loc = [(2, 1)] := by
+  decide
+
+/-- Non-vacuity: a txn whose answer is lost is applied (and an applied delete is an explicit deletion);
+one that never reached etcd is not. -/
+example : (run merge (init loc0)
+      [.begin 0 (.create 1 2), .commit 0, .begin 1 (.create 2 1), .commitFail 1 true,
+       .begin 0 (.create 3 1), .commitFail 0 false, .begin 1 (.delete 1), .commitFail 1 true]).etcd = some [(2, 1)] ∧
+    (run merge (init loc0)
+      [.begin 0 (.create 1 2), .commit 0, .begin 1 (.create 2 1), .commitFail 1 true,
+       .begin 0 (.create 3 1), .commitFail 0 false, .begin 1 (.delete 1), .commitFail 1 true]).acked = [] := by
+  decide
+
+/-- **A refresh with a "revision already loaded" fast path (seeded variant).**  Same schedule as
+above: broker 0's failed `DeleteTopic 1` leaves topic 1 deleted in its local copy without moving the
+revision; its next `CreateTopic 3` skips the reload (revision unchanged), mutates the dirty copy and
+writes it back under the unchanged revision: the acknowledged topic 1 is gone cluster-wide.  Second
+conjunct: a `CreateTopic` whose txn failed is answered "exists" on retry although etcd never held it. -/
+theorem _root_.KafVerif.C21.fastpath_refresh_seeded :
+    invB (runFast merge (init loc0)
+      [.begin 1 (.create 1 1), .commit 1, .begin 0 (.create 2 1), .commit 0,
+       .beginFail 0 (.delete 1), .begin 0 (.create 3 1), .commit 0]) = false ∧
+    (runFast merge (init loc0)
+      [.begin 1 (.create 1 1), .commit 1, .begin 0 (.create 2 1), .commit 0,
+       .beginFail 0 (.delete 1), .begin 0 (.create 3 1), .commit 0]).etcd = some [(2, 1), (3, 1)] ∧
+    (stepFast merge (runFastF merge (init loc0)
+        [.begin 0 (.create 1 1), .commit 0, .watch 0, .begin 0 (.create 2 1), .commitFail 0 false])
+        (.begin 0 (.create 2 1))).2 = .exists_ ∧
+    (runFast merge (init loc0)
+        [.begin 0 (.create 1 1), .commit 0, .watch 0, .begin 0 (.create 2 1), .commitFail 0 false]).etcd = some [(1, 1)] := by
   decide
 
 end KafVerif.Snapshot
